@@ -229,6 +229,11 @@ func VerifHarness_C11_restart() {
 			verifrt.Sig("after", "safe-after-unsafe")
 			verifrt.Assert(!safeAfter, "C11.after.unsafe-flag-survives")
 		}
+		if !trusted && !safeBefore {
+			// nobody vouched for it before the restart, and the restart does not vouch either
+			verifrt.Sig("after", "vouched-by-the-restart")
+			verifrt.Assert(!safeAfter, "C11.after.untrusted-tx-is-not-made-trusted-by-the-restart")
+		}
 		if trusted && !conflictBefore && !safeBefore && !confirmedBefore {
 			verifrt.Sig("after", "safe-lost")
 			verifrt.Assert(safeAfter, "C11.after.trusted-flag-and-first-seen-time-survive")
